@@ -64,13 +64,23 @@ pub fn arith_case<F: FElem>(prop: &str, conf: Confidence, xs: &[F]) -> String {
     });
     let o4 = guarded(|| enc_cires(&<Arithmetic<F> as StatisticsOps<F>>::ci(conf, &v)));
     let o5 = guarded(|| enc_cires(&<Arithmetic<F> as MeanCI<F>>::ci(conf, &v)));
+    // from_iter of a first part, then extend in further chunks (and once with nothing)
+    let o6 = guarded(|| {
+        let a = v.len() / 3;
+        let b = (2 * v.len()) / 3;
+        let mut s = Arithmetic::<F>::from_iter(&v[..a].to_vec()).unwrap();
+        StatisticsOps::extend(&mut s, &v[a..b].to_vec()).unwrap();
+        StatisticsOps::extend(&mut s, &Vec::<F>::new()).unwrap();
+        StatisticsOps::extend(&mut s, &v[b..].to_vec()).unwrap();
+        enc_cires(&s.ci_mean(conf))
+    });
     let st = guarded(|| {
         let mut s = Arithmetic::<F>::new();
         StatisticsOps::extend(&mut s, &v).unwrap();
         stats_line(&s)
     });
     format!(
-        "{} arith {} {} {} => {} | {} | {} | {} | {} | {}",
+        "{} arith {} {} {} => {} | {} | {} | {} | {} | {} | {}",
         prop,
         F::TAG,
         enc_conf(&conf),
@@ -80,6 +90,7 @@ pub fn arith_case<F: FElem>(prop: &str, conf: Confidence, xs: &[F]) -> String {
         o3,
         o4,
         o5,
+        o6,
         st
     )
 }
@@ -123,6 +134,19 @@ pub fn c01(out: &mut Vec<String>, rng: &mut Rng, tier: &str) {
                 out.push(arith_case::<f32>("C01", conf, &vec![c as f32; n]));
             }
         }
+    }
+    // samples whose sum is exactly zero (balanced integers, symmetric data) and with exact zeros
+    for _ in 0..(if tier == "thorough" { 100 } else { 20 }) {
+        let h = rng.range(1, 20) as usize;
+        let mut xs: Vec<f64> = (0..h).map(|_| rng.range(1, 40) as f64 * 0.5).collect();
+        let neg: Vec<f64> = xs.iter().map(|x| -x).collect();
+        xs.extend(neg);
+        if rng.coin() {
+            xs.push(0.0);
+        }
+        out.push(arith_case::<f64>("C01", rand_conf(rng), &xs));
+        let ys: Vec<f32> = xs.iter().map(|x| *x as f32).collect();
+        out.push(arith_case::<f32>("C01", rand_conf(rng), &ys));
     }
     // tiny spreads at ordinary and at small magnitudes (nanosecond-scale data)
     for _ in 0..(if tier == "thorough" { 200 } else { 30 }) {
@@ -418,7 +442,53 @@ pub fn unpaired_case<F: FElem>(prop: &str, conf: Confidence, xs: &[F], ys: &[F])
     )
 }
 
+/// a mismatched `extend` on a `Paired` state that already holds pairs: the error carries the lengths
+/// of the two sequences of THIS call; the state keeps what it had plus the common prefix
+pub fn paired_seq_case<F: FElem>(prop: &str, pre: &[(F, F)], xs: &[F], ys: &[F], how: usize) -> String {
+    let r = guarded(|| {
+        let mut s = Paired::<F>::default();
+        match how % 3 {
+            0 => {
+                let (a, b): (Vec<F>, Vec<F>) = pre.iter().cloned().unzip();
+                s.extend(&a, &b).unwrap();
+            }
+            1 => s.extend_tuple(&pre.to_vec()).unwrap(),
+            _ => {
+                for (a, b) in pre {
+                    s.append_pair(*a, *b).unwrap();
+                }
+            }
+        }
+        let e = match s.extend(&xs.to_vec(), &ys.to_vec()) {
+            Ok(()) => "ok".to_string(),
+            Err(e) => enc_cierr(&e),
+        };
+        format!("{} | {}", e, s.sample_count())
+    });
+    let (pa, pb): (Vec<F>, Vec<F>) = pre.iter().cloned().unzip();
+    format!("{} paired_seq {} {} {} {} {} => {}", prop, F::TAG, enc_list(&pa), enc_list(&pb), enc_list(xs), enc_list(ys), r)
+}
+
 pub fn c04(out: &mut Vec<String>, rng: &mut Rng, tier: &str) {
+    // more than 100 000 observations in total with a small, noisy sample: the effective dof stays
+    // small, so the Student-t quantile (not the normal one) applies
+    for (na, nb) in [(100_001usize, 3usize), (3, 100_200), (60_000, 50_000), (99_990, 9)] {
+        let quiet = |rng: &mut Rng, n: usize| -> Vec<f64> { (0..n).map(|_| 10.0 + (rng.unit() - 0.5) * 0.01).collect() };
+        let noisy = |rng: &mut Rng, n: usize| -> Vec<f64> { (0..n).map(|_| (rng.unit() - 0.5) * 200.0).collect() };
+        let (xs, ys) = if na > nb { (quiet(rng, na), noisy(rng, nb)) } else { (noisy(rng, na), quiet(rng, nb)) };
+        if tier == "thorough" || na + nb < 101_000 {
+            out.push(unpaired_case::<f64>("C04", rand_conf(rng), &xs, &ys));
+        }
+    }
+    for i in 0..(if tier == "thorough" { 200 } else { 40 }) {
+        let k = rng.range(0, 9) as usize;
+        let pre: Vec<(f64, f64)> = (0..k).map(|_| (rng.unit() * 8.0, rng.unit() * 8.0)).collect();
+        let na = rng.range(0, 7) as usize;
+        let nb = if i % 4 == 0 { na } else { rng.range(0, 7) as usize };
+        let xs = sample_f64(rng, na, 3, 4.0);
+        let ys = sample_f64(rng, nb, 3, 4.0);
+        out.push(paired_seq_case::<f64>("C04", &pre, &xs, &ys, i));
+    }
     let reps = if tier == "thorough" { 600 } else { 100 };
     for i in 0..reps {
         let conf = rand_conf(rng);
@@ -572,6 +642,10 @@ pub fn c11(out: &mut Vec<String>, rng: &mut Rng, tier: &str) {
             }
             let data: Vec<i64> = (1..=8).collect();
             out.push(expect("InvalidQuantile", prop_ops::qci_i64_pub("C11", conf, q, &data)));
+        }
+        // NaN inside otherwise ascending data: the documented panic, never an Ok with a NaN bound
+        for pos in [0usize, 4, 7, 11, 14] {
+            out.push(expect("panic-sort", prop_ops::qci_nan_sorted_pub("C11", conf, 15, pos)));
         }
         for n in 0..4usize {
             out.push(expect("TooFewSamples", prop_ops::qidx_line_pub("C11", conf, n, 0.5)));
